@@ -172,9 +172,9 @@ BOUNDS = {
                                  "layouts with both markers present); events: read/new x answers %s, reg, unreg, delreg, "
                                  "delunreg, 8 marker plantings" % (QUICK_MID, QUICK_ANSWERS),
               "extra_components": "%s x machine-id kinds %s x reduced layouts (every per-directory pair uniformly and in one "
-                                  "directory only; one exotic kind %s at one location); events: read/new x answers, marker "
+                                  "directory only; one exotic kind %s at one location); events: read/new x {none,B}, marker "
                                   "events, 2 identifier-location plantings" % (EXTRA, SMALL_MID, MK_EXOTIC),
-              "one_process": "all event sequences of length <= 4 over read/new x {none,B}, reg, unreg, delreg, delunreg from "
+              "one_process": "all event sequences of length <= 3 over read/new x {none,B}, reg, unreg, delreg, delunreg from "
                              "8 initial states, module state not reset inside a sequence",
               "depth": "closure (unbounded)"},
     "thorough": {"main_components": "as quick with machine-id kinds %s, all answers %s, plus every layout with one exotic "
@@ -858,7 +858,7 @@ def unit_spec(unit, tier):
     else:
         mids = list(MID_KINDS) if thorough else SMALL_MID
         layouts = reduced_layouts(dirs)
-        events = id_events(answers) + MARKER_EVENTS + PLANT_MID
+        events = id_events(answers if thorough else ["none", "B"]) + MARKER_EVENTS + PLANT_MID
         extra = {"ids": 1}
         if order != "fwd":
             extra["order"] = order
@@ -884,7 +884,7 @@ def units(tier, seed):
         us.append({"part": "extra", "dirs": list(dirs), "order": order, "seed": seed})
     for i in range(len(OP_INITS)):
         for ev in OP_EVENTS:
-            us.append({"part": "one-process", "init": i, "first": ev, "max_len": 4 if tier == "quick" else 5})
+            us.append({"part": "one-process", "init": i, "first": ev, "max_len": 3 if tier == "quick" else 5})
     return us
 
 
